@@ -206,7 +206,22 @@ def _child(spec, conn):
 
 def run_pool(specs, jobs, wall_limit):
     """one process per task (fork), at most `jobs` at a time, each killed after wall_limit seconds:
-    a solver call that ignores its timeout cannot hang or exhaust the machine"""
+    a solver call that ignores its timeout cannot hang or exhaust the machine.  A worker that dies (z3 5.1 segfaults
+    sporadically - observed once in ~200 runs) is started again, at most twice."""
+    results = _run_pool_once(specs, jobs, wall_limit)
+    for attempt in range(2):
+        again = [i for i, r in enumerate(results)
+                 if r.get('status') == 'error' and ('worker died' in r.get('message', '') or 'worker exited' in r.get('message', ''))]
+        if not again:
+            break
+        redo = _run_pool_once([specs[i] for i in again], jobs, wall_limit)
+        for i, r in zip(again, redo):
+            r['retries'] = attempt + 1
+            results[i] = r
+    return results
+
+
+def _run_pool_once(specs, jobs, wall_limit):
     ctx = mp.get_context('fork')
     results = [None] * len(specs)
     pending = list(enumerate(specs))
